@@ -1449,7 +1449,13 @@ class ManifestRecursiveLoader:
                 # a previous update on this loader and not saved yet
                 continue
 
-            self.loaded_manifests[mpath].entries.remove(fe)
+            try:
+                self.loaded_manifests[mpath].entries.remove(fe)
+            except ValueError:
+                # the entry is not in its Manifest any more: an equal
+                # duplicate was removed in its place earlier, and it
+                # has been modified since
+                pass
             self.updated_manifests.add(mpath)
 
     def create_manifest(self, path):
